@@ -8,9 +8,12 @@ from __future__ import annotations
 
 import importlib
 import os
+import sys
 import traceback
 
 HERE = os.path.dirname(os.path.abspath(__file__))
+if os.path.dirname(HERE) not in sys.path:
+    sys.path.insert(0, os.path.dirname(HERE))
 GEN_DIR = os.path.join(os.path.dirname(HERE), "coq", "theories", "Gen")
 
 
@@ -32,24 +35,26 @@ GENERATORS = {
     "MatchConsts": _match_consts,
 }
 
-# further generators are registered by the translator modules that exist
-for _name, _mod, _fn in (
-    ("StreamConsts", "translator.stream_consts", "emit"),
-    ("ServerConsts", "translator.server_consts", "emit"),
-    ("HistConsts", "translator.hist_consts", "emit"),
-    ("ConflictConsts", "translator.conflict_consts", "emit"),
-    ("ParseConsts", "translator.parse_consts", "emit"),
-    ("LlmFlows", "translator.colang_v1", "emit_llm_flows"),
-    ("GuardrailsV2", "translator.colang_v2", "emit_guardrails"),
-    ("EmbConsts", "translator.emb_consts", "emit"),
-    ("LogConsts", "translator.log_consts", "emit"),
-    ("RuntimeConsts", "translator.runtime_consts", "emit"),
-    ("SmConsts", "translator.sm_consts", "emit"),
-    ("ExpandConsts", "translator.expand_consts", "emit"),
-    ("TextConsts", "translator.text_consts", "emit"),
-):
-    if os.path.exists(os.path.join(HERE, _mod.split(".")[1] + ".py")):
-        GENERATORS[_name] = _lazy(_mod, _fn)
+# further generators: every translator/gen_*.py module exposing GENERATORS = {"Name": fn}
+# (fn returns the full text of coq/theories/Gen/<Name>.v) is registered automatically
+import glob as _glob
+
+for _p in sorted(_glob.glob(os.path.join(HERE, "gen_*.py"))):
+    _modname = "translator." + os.path.basename(_p)[:-3]
+
+    def _mk(modname, key):
+        def run():
+            mod = importlib.import_module(modname)
+            return mod.GENERATORS[key]()
+
+        return run
+
+    try:
+        _m = importlib.import_module(_modname)
+        for _key in _m.GENERATORS:
+            GENERATORS[_key] = _mk(_modname, _key)
+    except Exception as _e:  # a broken translator module: its generators fail closed when requested
+        sys.stderr.write(f"[translator] cannot import {_modname}: {_e}\n")
 
 
 def regen(names=None):
@@ -58,6 +63,8 @@ def regen(names=None):
     for name in names if names is not None else list(GENERATORS):
         path = os.path.join(GEN_DIR, name + ".v")
         try:
+            if name not in GENERATORS:
+                raise KeyError(f"no generator registered for Gen/{name}.v")
             text = GENERATORS[name]()
         except Exception as e:  # fail closed: report, remove stale output
             res[name] = f"{type(e).__name__}: {e}\n{traceback.format_exc(limit=3)}"
